@@ -60,5 +60,37 @@ func genC04(tier string, rng *Rng) []Case {
 			}
 		}
 	}
+	// retry_rule fallbacks whose internal flag differs from their parent's: the firewall applies per destination
+	fail := Behaviour{Status: 404, Hdrs: []KV{{"Content-Type", "text/plain"}}, Body: "no"}
+	for _, sc := range secretCfgs {
+		for _, mi := range []bool{false, true} {
+			for _, ri := range []bool{false, true} {
+				for _, sv := range secretVals {
+					for _, iv := range idVals[:2] {
+						for _, mainFails := range []int{0, 1, 2} { // 0: ok, 1: 4xx, 2: unreachable
+							hdrs := []KV{{"Accept", "*/*"}}
+							for _, v := range sv {
+								hdrs = append(hdrs, KV{"Richie-Routing-Secret", v})
+							}
+							for _, v := range iv {
+								hdrs = append(hdrs, KV{"Richie-Request-ID", v})
+							}
+							rr := Rule{Enabled: true, Path: "/*", Dest: "http://retry.test/r/$1", Internal: ri, Type: 1}
+							main := Rule{Enabled: true, Path: "/*", Dest: "http://main.test/m/$1", Internal: mi, Type: 1, Retry: &rr}
+							mb := ok
+							if mainFails == 1 {
+								mb = fail
+							} else if mainFails == 2 {
+								mb = Behaviour{Err: true}
+							}
+							script2 := []HostScript{{"main.test", []Behaviour{mb}}, {"retry.test", []Behaviour{ok}}}
+							out = append(out, routeCase{RouteCase{Secrets: sc, Retries: 0, Rules: []Rule{main},
+								Req: Req{Method: "GET", Host: "app.test", Target: "/x", Hdrs: hdrs}, Script: script2}})
+						}
+					}
+				}
+			}
+		}
+	}
 	return out
 }
